@@ -32,6 +32,8 @@ mod server;
 mod state;
 mod store;
 mod util;
+#[cfg(feature = "verif-hooks")]
+pub mod verif_hooks;
 
 pub use crate::{metrics::Metrics, server::Server};
 
